@@ -182,13 +182,13 @@ theorem loadDbi_native_ok {c : Cfg} {snap : Snap} {txnID cutoff : Nat} {w w' : W
   cases hd : findDbi w.dbis m.name with
   | some d =>
     simp only [hd] at h
-    exact fin w d (openCreate_of_some _ hd).symm hd h
+    exact fin w d (openCreate_of_someMirror _ hd).symm hd h
   | none =>
     simp only [hd] at h
     have hf := openCreate_find_self w m.name (createFlags c m)
-    unfold createFlags at hf
+    unfold createFlags ovrOf at hf
     simp only [hf] at h
-    exact fin _ _ (by unfold createFlags; rfl) hf h
+    exact fin _ _ (by unfold createFlags ovrOf; rfl) hf h
 
 /-- the DBI `name` exists and what it stores for `key` is not beaten by `v` -/
 def StoredGE (dbis : List Dbi) (name key : Bytes) (v : Ver) : Prop :=
@@ -237,7 +237,7 @@ theorem loadDbi_native_mono {c : Cfg} {snap : Snap} {txnID : Nat} {w w' : W} {m 
     have hfind : ∀ x, findDbi (setKvs (openCreate w m.name (createFlags c m)).dbis m.name s.db) x =
         if x = m.name then some { td with kvs := s.db } else findDbi w.dbis x := by
       intro x
-      rw [findDbi_setKvs]
+      rw [findDbi_setKvsMirror]
       by_cases hx : x = m.name
       · rw [if_pos hx, if_pos hx, htd]; rfl
       · rw [if_neg hx, if_neg hx, openCreate_find_ne _ _ _ _ hx]
